@@ -3000,7 +3000,8 @@ def optimize_blockwise_fusion(expr):
                 seen.add(next._name)
 
                 group.append(next)
-                for dep_name in dependencies[next._name]:
+                # sorted: set iteration order of names depends on PYTHONHASHSEED
+                for dep_name in sorted(dependencies[next._name]):
                     dep = expr_mapping[dep_name]
 
                     stack_names = {s._name for s in stack}
